@@ -155,11 +155,16 @@ CorruptVals(b, i) ==
 \* byte values worth substituting: opcodes with structure, name prefixes, extremes
 Interesting == {0, 1, 2, 3, 8, 10, 13, 16, 17, 20, 46, 47, 63, 64, 91, 92, 94, 65, 128, 129, 130, 134, 160, 162, 255}
 
+\* a length, size or count operand that is off by a few (bit flips only give powers of two): the
+\* place where "declared a little more than is there" decides between inside and behind the table
+SmallDeltas == {-3, -2, -1, 1, 2, 3}
+
 \* the mutations applicable to b, as <<kind, arguments...>>
 Mutations(b, setvals, splicelens) ==
      {<<"Truncate", k>> : k \in 0 .. (Len(b) - 1)}
   \cup {<<"FlipBit", i, bit>> : i \in 1 .. Len(b), bit \in 0 .. 7}
   \cup {<<"SetByte", i, v>> : i \in 1 .. Len(b), v \in setvals}
+  \cup {<<"AddToByte", i, d>> : i \in 1 .. Len(b), d \in SmallDeltas}
   \cup UNION {{<<"CorruptPkgLen", i, nv - PkgVal(b, i)>> : nv \in CorruptVals(b, i)} : i \in Sites(b)}
   \cup UNION {{<<"Splice", PkgStart(b, i), PkgStart(b, j), k>> :
                   k \in {PkgSpan(b, j)} \cup {n \in splicelens : PkgStart(b, j) + n - 1 <= Len(b)}} : i \in Sites(b), j \in Sites(b)}
@@ -168,6 +173,7 @@ Apply(b, m) ==
   CASE m[1] = "Truncate"      -> SubSeq(b, 1, m[2])
     [] m[1] = "FlipBit"       -> [b EXCEPT ![m[2]] = XorBit(b[m[2]], m[3])]
     [] m[1] = "SetByte"       -> [b EXCEPT ![m[2]] = m[3]]
+    [] m[1] = "AddToByte"     -> [b EXCEPT ![m[2]] = (b[m[2]] + m[3] + 256) % 256]
     [] m[1] = "CorruptPkgLen" -> SetPkgVal(b, m[2], PkgVal(b, m[2]) + m[3])
     [] m[1] = "Splice"        -> SubSeq(b, 1, m[2] - 1) \o SubSeq(b, m[3], m[3] + m[4] - 1) \o SubSeq(b, m[2], Len(b))
 IsBytes(b) == \A i \in 1 .. Len(b) : b[i] \in 0 .. 255
